@@ -11,7 +11,7 @@ git -C $WT diff -- trashcli trash-put trash-list trash-restore trash-empty trash
 cp -r $WT/seed_demo/. $OUT/demo/ 2>/dev/null || mkdir -p $OUT/demo; cp -r $WT/seed_demo/* $OUT/demo/ 2>/dev/null
 find $OUT/demo -name __pycache__ -prune -exec rm -rf {} \; 2>/dev/null
 echo "== tests with change"; (cd $WT && /venv/bin/python -m pytest -q -p no:cacheprovider --timeout=900 2>&1 | tail -1) | tee $OUT/tests_with_change.txt
-DEMO=$(ls $WT/seed_demo/*.py | head -1)
+DEMO=$WT/seed_demo/demo.py; [ -f $DEMO ] || DEMO=$(ls $WT/seed_demo/*.py | head -1)
 echo "== demo with change ($DEMO)"
 case "$DEMO" in
   *test_*) RUN="/venv/bin/python -m pytest -q -p no:cacheprovider $DEMO";;
